@@ -72,6 +72,29 @@ CHECKS.update({
     },
 })
 
+CHECKS.update({
+    "C12": {
+        "text": "Bounded model checking of the scalar cube algebra with BOTH cubes ranging over all 32 variables (Cube::from_mask of arbitrary u32 masks, surjective onto every constructible cube) and a symbolic 32-bit assignment: value by definition, & (4 forms) = conjunction with canonical zero, == is semantic (4 Skolem witnesses), implies / intersects sound and complete (Skolem witnesses), minterm (n<=31 symbolic, n=32), from_vars, literals, counts. Cube::all(n): a symbolic cube occurs exactly once iff non-zero over variables < n, 3^n items (n<=3 quick, n<=5 thorough). implies_lut against a symbolic function: sound on a symbolic assignment, complete against the definitional scan (n<=4 quick, n<=6 thorough).",
+        "design_ref": "DESIGN.md section 5 / C12",
+        "technique": "Kani/CBMC bounded model checking over all 32 variables with Skolem witnesses for the existential directions",
+    },
+    "C13": {
+        "text": "Ecube over all 32 variables (built through the public API from symbolic masks): value = parity ^ xnor, ^ (4 forms), ! (2 forms), semantic equality by Skolem witness, counts, constructors; Ecube::all(n) enumerates each term exactly once (n<=2 quick, n<=4 thorough). Soes (partial): forms built from zero/one/nth_var/nth_var_inv and | with concrete operand kinds and symbolic variable indices (4 operands, n<=6 quick, n<=8 thorough): value = OR of terms, | (4 forms), Lut::from tabulates the same well-formed function, is_zero/is_one only for the constants; one general from_cubes term only in thorough under a cap. Soes with several multi-variable terms are outside the claim.",
+        "design_ref": "DESIGN.md section 5 / C13",
+        "technique": "Kani/CBMC bounded model checking; Ecube fully symbolic over 32 variables, Soes with concrete shapes and symbolic contents",
+    },
+    "C15": {
+        "text": "Esop (partial). Conversion Esop::from(&Lut) for symbolic f and symbolic monomial S: the cube of S occurs exactly ANF(f)[S] times (ANF computed by definition in the harness), every cube is all-positive over variables < n, value(m)==f(m), converting back gives f: n<=2 quick (n=2 count/positivity only), n=2 value/back and n=3 count in thorough under caps; n>=4 outside the claim (the conversion's control flow is a bijective image of f; Vec growth under symbolic conditions). Operators ^ (4 forms) and ! (2 forms), tabulation and is_zero/is_one on constructor-built Esops with concrete operand kinds and symbolic variable indices, n<=6 quick, n<=8 thorough.",
+        "design_ref": "DESIGN.md section 5 / C15",
+        "technique": "Kani/CBMC bounded model checking with a symbolic function and symbolic monomial index (tiny n), concrete-shape Esops for the operators",
+    },
+    "C19": {
+        "text": "Bounded model checking of random() compiled against an RNG environment stub whose next_u64 returns arbitrary (kani::any) values: for EVERY sequence of RNG outputs the table is well-formed (no bit beyond 2^n, right block count) and each call consumes fresh draws; non-degeneracy as solver-decided reachability claims (constant one, constant zero, differing first/last words, differing calls are each reachable), a refuted claim being confirmed natively by the property's own 256-draw formulation before it is reported. quick LutN n=0..8 and Lut subset, thorough n=0..12. Fairness of thread_rng, the 2^-200 statistical bound and multi-threaded schedules are outside the claim.",
+        "design_ref": "DESIGN.md section 5 / C19",
+        "technique": "Kani/CBMC bounded model checking with the RNG replaced by a nondeterministic stub (every RNG output symbolic)",
+    },
+})
+
 NOT_APPLICABLE = {
     "C07": "bdd_complexity is Vec push/retain/sort/dedup under symbolic conditions: a single symbolic function at n=2 does not finish in 900 s under Kani/CBMC (n<=1 is vacuous); no bound at which the property says anything is reachable by the solver",
     "C14": "every Sop operation goes through from_cubes ((0..32).filter over a symbolic mask) or conditional Vec::push and ends in simplify (retain/sort/dedup): '|' and '&' on 1x1 cubes at n=2 exceed 900 s under Kani/CBMC; cube-level facts it relies on are decided in C12",
